@@ -248,6 +248,8 @@ func c18Sequential(t *T) {
 	} else {
 		implName = "serial-fallback"
 		sim = newSimStore(t, c.Chance(1, 2))
+		// a plain Store need not look at the context it is handed
+		sim.ignoreCtx = c.Chance(1, 2)
 		open = func() (keyvalue.Transaction, error) {
 			return keyvalue.TransactionOrSerial(sim, keyvalue.TransactionOptions{Mode: keyvalue.TransactionReadWrite})
 		}
@@ -358,10 +360,11 @@ func c18Concurrent(t *T) {
 	st := mem.NewStoreForVerif()
 	ntx := 2 + c.Draw(2)
 	type txlog struct {
-		calls   []txnCall
-		seen    []int64 // per call: tag seen by Get (-1 missing, -2 n/a)
-		started int
-		ended   int
+		calls    []txnCall
+		seen     []int64 // per call: tag seen by Get (-1 missing, -2 n/a)
+		started  int
+		ended    int
+		readOnly bool
 	}
 	logs := make([]*txlog, ntx)
 	for i := range logs {
@@ -371,6 +374,19 @@ func c18Concurrent(t *T) {
 				logs[i].calls[j].handler = "fail" // an abort inside a handler ends the transaction early; endings are the sequential mode's subject
 			}
 		}
+		// a third of the transactions only read and are opened read-only, the way keyvalue.FS opens its lookups
+		if c.Chance(1, 3) {
+			logs[i].readOnly = true
+			for j := range logs[i].calls {
+				switch logs[i].calls[j].kind {
+				case "Set":
+					logs[i].calls[j].kind = "Get"
+				case "SetHandler":
+					logs[i].calls[j].kind = "GetHandler"
+				}
+			}
+			t.Stat("c18:read-only-transaction")
+		}
 	}
 	t.Logf("mode=concurrent transactions=%d", ntx)
 	clock := 0
@@ -379,7 +395,11 @@ func c18Concurrent(t *T) {
 			i := i
 			s.Go(fmt.Sprintf("txn%d", i), func() {
 				l := logs[i]
-				txn, err := st.Transaction(keyvalue.TransactionOptions{Mode: keyvalue.TransactionReadWrite})
+				mode := keyvalue.TransactionReadWrite
+				if l.readOnly {
+					mode = keyvalue.TransactionReadOnly
+				}
+				txn, err := st.Transaction(keyvalue.TransactionOptions{Mode: mode})
 				if err != nil {
 					t.Fail("open", "C18:concurrent:open-fails", err.Error())
 				}
